@@ -201,6 +201,43 @@ const GENERIC_TEMPLATES: [&str; 7] = [
     "fn keep(a, b){\n  let arr = [a, b]\n  arr[0]\n}\nfn dsp(){\n  keep(1.0, 2.0)\n}\n",
 ];
 
+/// Every replacement of one match-arm pattern by the pattern of another arm of the same `match`
+/// (a duplicated constructor with another one missing: exhaustiveness must still be judged per constructor).
+pub fn match_arm_variants(src: &str) -> Vec<String> {
+    let lines: Vec<&str> = src.lines().collect();
+    // arms = lines of the form `<pattern> => ...`; consecutive arm lines form one match
+    let is_arm = |l: &str| l.contains("=>") && !l.trim_start().starts_with("//");
+    let mut out = vec![];
+    let mut i = 0;
+    while i < lines.len() {
+        if is_arm(lines[i]) {
+            let mut j = i;
+            while j < lines.len() && is_arm(lines[j]) {
+                j += 1;
+            }
+            for a in i..j {
+                for b in i..j {
+                    if a == b {
+                        continue;
+                    }
+                    let pat_b = lines[b].split("=>").next().unwrap_or("");
+                    let rest_a = lines[a].splitn(2, "=>").nth(1).unwrap_or("");
+                    // keep arm a's body only if it does not use binders of its own pattern
+                    let binders_a: Vec<&str> = lines[a].split("=>").next().unwrap_or("").split(|c: char| !c.is_alphanumeric() && c != '_').filter(|w| w.chars().next().is_some_and(|c| c.is_ascii_lowercase())).collect();
+                    let body = if binders_a.iter().any(|w| rest_a.contains(w)) { lines[b].splitn(2, "=>").nth(1).unwrap_or("") } else { rest_a };
+                    let mut v: Vec<String> = lines.iter().map(|l| l.to_string()).collect();
+                    v[a] = format!("{pat_b}=>{body}");
+                    out.push(v.join("\n") + "\n");
+                }
+            }
+            i = j;
+        } else {
+            i += 1;
+        }
+    }
+    out
+}
+
 pub fn near_miss(src: &str, rng: &mut Rng) -> String {
     near_miss_with(src, rng, false)
 }
@@ -427,7 +464,19 @@ pub fn run(args: &Args, out: &mut Out) {
     let ncorpus = files.len();
     let nmut = if args.thorough() { ncorpus * 6 } else { ncorpus / 3 };
     let ngen = args.cases(420, 40000);
-    let variants = template_variants();
+    let mut variants = template_variants();
+    let ntemplate_variants = variants.len();
+    let mut variant_paths: Vec<Option<String>> = vec![None; variants.len()];
+    for f in &files {
+        if let Ok(src) = std::fs::read_to_string(f) {
+            if src.contains("match") && !args.q(&format!("corpus:{}", f.file_name().map(|n| n.to_string_lossy().to_string()).unwrap_or_default())) {
+                for v in match_arm_variants(&src).into_iter().take(if args.thorough() { 64 } else { 12 }) {
+                    variants.push(v);
+                    variant_paths.push(Some(f.to_string_lossy().to_string()));
+                }
+            }
+        }
+    }
     let total = ncorpus + nmut + ngen + variants.len();
     drive(
         args,
@@ -467,16 +516,17 @@ pub fn run(args: &Args, out: &mut Out) {
                 })
             } else if idx >= ncorpus + nmut + ngen {
                 // enumerated: every single wrap mutation of every generic template
+                let vi = idx - (ncorpus + nmut + ngen);
                 Some(Case {
-                    src: variants[idx - (ncorpus + nmut + ngen)].clone(),
+                    src: variants[vi].clone(),
                     n: 4,
                     input_seed: 1,
                     finite_inputs: true,
                     prog: None,
                     expect: None,
-                    scheduler: false,
-                    path: None,
-                    origin: Some("nearmiss:generic-template-variant".into()),
+                    scheduler: vi >= ntemplate_variants,
+                    path: variant_paths[vi].clone(),
+                    origin: Some(if vi < ntemplate_variants { "nearmiss:generic-template-variant".into() } else { "nearmiss:match-arm-pattern-duplicated".to_string() }),
                     split: None,
                 })
             } else {
